@@ -52,7 +52,7 @@ FACTS = ("tables", "c14")
 
 RULE = ("configurations drawn from a seeded generator (0-2 paths with optional per-path locales, "
         "0-4 rules with single/list paths, absent/literal/re:/list/nested-list keys, three actions; "
-        "children to depth 2; excluded configurations at the root) x queries over 13 files x 5 file "
+        "children to depth 2; excluded configurations at the root) x queries over 31 files (directory and file names with regex metacharacters and near misses: c++ / ccc, b.ftl / b-ftl) x 5 file "
         "locales (incl. an unknown one and None) x 22 keys (incl. none, '', trailing newline, regex metacharacters, keys separating `re:<expr>` from an expression that lost leading r/e/: characters); a case "
         "is one (configuration, query) pair and is distinct by its rendered text; trivial cases "
         "(locale not in the project) are a minority by construction (see histogram verdicts)")
@@ -66,8 +66,10 @@ ENV = {"root": ROOT}     # the TOML stream puts its configurations into a tempor
 LOCS = ["de", "fr", "it", "xx", None]          # File.locale; index = model's locale
 CONF_LOCS = ["de", "fr", "it"]                  # locales configurations may list
 PLOCS = ["de", "fr"]
-DIRS = ["a", "c", "a/d"]
-NAMES = ["b.ftl", "e.properties"]
+# regex metacharacters in directory and file names, with near misses that a pattern text used
+# as regular-expression source would confuse: c++ / ccc, b.ftl / b-ftl
+DIRS = ["a", "c", "a/d", "c++", "ccc"]
+NAMES = ["b.ftl", "e.properties", "b-ftl"]
 FILES = [(pl, d, n) for pl in PLOCS for d in DIRS for n in NAMES] + [(None, "other", "x.ftl")]
 KEYS = [None, "", "k1", "k1\n", "k2", "k2x", "xk1", "kk", "k.", "kx",
         # keys that tell `re:<expr>` from an expression that lost leading r/e/: characters
@@ -166,7 +168,8 @@ def gen_key(rng, depth=0):
 
 
 BROAD = ["{l}/**", "l10n/{locale}/**", "l10n/*/**", "{l}/a/**", "l10n/de/**", "l10n/{locale}/**/b.ftl",
-         "l10n/*/a/*", "{l}/c/*"]
+         "l10n/*/a/*", "{l}/c/*", "{l}/c++/**", "l10n/*/c++/*.ftl", "{l}/a/b.ftl", "{l}/c++/b.ftl",
+         "{l}/**/b.ftl", "l10n/{locale}/c++/*"]
 
 
 def gen_pattern(rng, broad=0.35):
